@@ -388,6 +388,15 @@ def penman_value_collision(d, o):
     return False
 
 
+def penman_value_is_variable(d, o):
+    """EXACTLY the situation in which penman reads a property as an edge: in the triples written for `d`, the target of
+    a property triple (lower-case role other than instance/lnk/carg) is the source of some :instance triple"""
+    ts = dmrspenman.to_triples(d, **o)
+    variables = {s_ for s_, r, _ in ts if r == ":instance"}
+    return any(t in variables for _, r, t in ts
+               if r not in (":instance", ":lnk", ":carg") and r[1:].islower())
+
+
 def lnk_none(l):
     """no alignment: None, unspecified, or the character span <-1:-1> (stated here, not taken from Lnk.__bool__)"""
     return l is None or l.type == Lnk.UNSPECIFIED or (l.type == Lnk.CHARSPAN and tuple(l.data) == (-1, -1))
@@ -739,6 +748,15 @@ def witnesses():
                                                                node_j(10002, "_bark_v_1", "e", [("PT", "x2"), ("TENSE", "_4")], lnk=["c", 8, 9]),
                                                                node_j(10003, "_u_n_1", None, [("PT", "_4"), ("GEND", "q1")], carg="_4")],
                                                 [link_j(10000, 10001, "RSTR", "H"), link_j(10002, 10001, "ARG1", "NEQ"), link_j(10002, 10003, "ARG2", "NEQ")])))
+    w.append(("fresh-chain", dmrs_j(10000, None, [node_j(10000, "_v_v_1", "x"), node_j(10001, "x1", "e"), node_j(10002, "x1_", "e"),
+                                                  node_j(10003, "x1__", "i"), node_j(10004, "e2", None), node_j(10005, "_5", None)],
+                                    [link_j(10000, 10001, "ARG1", "NEQ"), link_j(10000, 10002, "ARG2", "NEQ"), link_j(10000, 10003, "ARG3", "NEQ"),
+                                     link_j(10001, 10004, "ARG1", "EQ"), link_j(10004, 10005, "ARG1", "NEQ")])))
+    w.append(("twins", dmrs_j(10002, 10001, [node_j(10000, "_a_n_1", "x", [("NUM", "sg")], carg="c", lnk=["c", 0, 1]),
+                                           node_j(10001, "_b_v_1", "e", lnk=["c", 2, 3]),
+                                           node_j(10002, "_a_n_1", "x", [("NUM", "sg")], carg="c", lnk=["c", 4, 5]),
+                                           node_j(10003, "_a_n_1", "x", [("NUM", "sg")], carg="c", lnk=["c", 0, 1])],
+                              [link_j(10001, 10000, "ARG1", "NEQ"), link_j(10001, 10002, "ARG2", "NEQ"), link_j(10003, 10002, "ARG1", "EQ")])))
     w.append(("same-key-nodes", dmrs_j(10000, None, [node_j(10000, "_a_n_1", "x", [("NUM", "sg")]), node_j(10001, "_a_n_1", "x", [("NUM", "pl")]),
                                                      node_j(10002, "_a_n_1", "x", [("PERS", "3")]), node_j(10003, "_a_n_1", "x")],
                                        [link_j(10000, 10001, "ARG1", "NEQ"), link_j(10001, 10002, "ARG1", "NEQ"), link_j(10002, 10003, "ARG1", "NEQ")])))
@@ -1360,7 +1378,7 @@ class C02(Check):
 
     def extra_evidence(self):
         tie = dict(sorted(self.tie.items()))
-        return {"tie": tie,
+        return {"penman_text_alternations_accepted": getattr(self, "alternations", 0), "tie": tie,
                 "tie_totals": {"compared": sum(v for k_, v in tie.items() if k_.endswith(":compared")),
                                "skipped": sum(v for k_, v in tie.items() if ":skipped:" in k_),
                                "unmodelled": sum(v for k_, v in tie.items() if k_.endswith(":unmodelled"))}}
@@ -1370,6 +1388,7 @@ class C02(Check):
 
     def setup(self):
         self.tie = {}
+        self.alternations = 0
         self.tmp = tempfile.mkdtemp(prefix="c02-", dir="/var/tmp")
 
     def teardown(self):
@@ -1543,7 +1562,10 @@ class C02(Check):
                     # a property value spelled like a variable: penman nests the other node under the property edge
                     # and the nesting moves with the renumbering, so the texts may alternate (observed period 2,
                     # every round the same graph); there the texts must come back to an earlier one
-                    cyc_ok = any(penman_value_collision(d, o) for d in ds)
+                    # Characterisation (checked here, every case): the text settles unless, in SOME round, a property
+                    # value of the graph being written is the variable of one of its nodes; only then a return to an
+                    # earlier text is accepted instead of a fixpoint.
+                    cyc_ok = any(penman_value_is_variable(d, o) for d in back)
                     seen_texts = [text, again]
                     for _round in range(len(max(ds, key=lambda d: len(d.nodes)).nodes) + 3 if ds else 1):
                         nxt = [mod.decode(cur_text)] if single else mod.loads(cur_text)
@@ -1551,8 +1573,11 @@ class C02(Check):
                                                            for a, b in zip(cur, nxt)):
                             fail("dmrspenman: text of the renumbered graph decodes to a different graph", cur_text[:300])
                             break
+                        cyc_ok = cyc_ok or any(penman_value_is_variable(d, o) for d in nxt)
                         nxt_text = mod.encode(nxt[0], indent=ind, **o) if single else mod.dumps(nxt, indent=ind, **o)
                         if nxt_text == cur_text or (cyc_ok and nxt_text in seen_texts):
+                            if nxt_text != cur_text:
+                                self.alternations = getattr(self, "alternations", 0) + 1
                             break
                         seen_texts.append(nxt_text)
                         cur_text, cur = nxt_text, nxt
